@@ -21,7 +21,7 @@ APIS = ["cfg.cnf", "cfg.nullaryremove", "cfg.unaryremove", "cfg.unarycycleremove
 
 
 def plan(tier, seed):
-    return common.plan_shards(tier, seed, n_quick=400, n_thorough=3000, budget_quick=30, budget_thorough=300)
+    return common.add_m9_shard(common.plan_shards(tier, seed, n_quick=400, n_thorough=3000, budget_quick=30, budget_thorough=300), tier)
 
 
 def gates(tier):
@@ -39,4 +39,6 @@ def run_case(case, ctx):
 
 
 def run(spec, ctx):
+    if spec.get("m9"):
+        return common.run_m9(spec, ctx)
     common.loop(spec, ctx, xform.gen_case, run_case)
